@@ -16,7 +16,7 @@ def post(ctx, results):
 
 def run(ctx):
     n = {'quick': 240, 'thorough': 2 * len(rtcheck.MATRIX)}[ctx.tier]
-    plan = [('matrix', n, 4)]
+    plan = [('matrix', n, 4), ('sertrail', {'quick': 32, 'thorough': 300}[ctx.tier], 4)]
     return rtprop.run(ctx, THEOREMS, plan, 'exploration',
                       'configuration matrix: 13 table option sets x {7,8} bit x {default,-I,-B} x {%%pointer,%%array} x '
                       '{non-reentrant C, reentrant C, c99 back end, C++ class} x {in-code, serialized tables (default skeleton only)} = %d configurations, visited in a '
